@@ -113,7 +113,24 @@ type sop struct {
 	T  string `json:"T"`
 }
 
+// aliasFlip alternates how the key `message` is spelled in generated scripts: by name, or through its alias `_`
+var aliasFlip int
+
+func spellKey(k string) string {
+	if k == "message" {
+		aliasFlip++
+		if aliasFlip%2 == 0 {
+			return "_"
+		}
+	}
+	return k
+}
+
 func (o sop) script() string {
+	o.K = spellKey(o.K)
+	if o.K2 != "" {
+		o.K2 = spellKey(o.K2)
+	}
 	switch o.O {
 	case "add_key":
 		return fmt.Sprintf("add_key(%s, %s)", o.K, o.V.lit())
